@@ -11,9 +11,11 @@
    ParseCSeqVal (CSeqSpec.v, C10_cseq_value_is_its_digits): on *WSP digits 1*WSP method CRLF the
    number is the value of exactly the digits, rejected above 2^32-1 or with more than 10 digits; the
    method text and number, and all extents, are those of the text; any offset.
-   PARTIAL in one respect: for the URI port that the accumulator is fed exactly the digits of the
-   reported field is checked by the correspondence run and the number-chunked oracle (status: C08). *)
-From Sipsp Require Import Harness IP4 Numbers FLineSpec UIntSpec QSpec NameAddrSpec NameAddrParam HdrSpec CSeqSpec.
+   The URI port (URIPortSpec.v, C10_uri_port_is_its_digits): on "sip:" host ":" digits ParseURI reports
+   host and port with the extents of the text and PortNo = the value of exactly those digits, or
+   rejects the URI when that exceeds 65535 (status: C08).  Every numeric position of the property is
+   thereby proved at parser level for its basic textual shape. *)
+From Sipsp Require Import Harness IP4 Numbers FLineSpec UIntSpec QSpec NameAddrSpec NameAddrParam HdrSpec CSeqSpec URIPortSpec.
 Theorem C10_uint_header_value_is_its_digits : forall p sp ds d x,
   Forall (fun b => is_sp b = true) sp -> all_digits ds -> ds <> [] -> is_sp d = false ->
   let i := nnat (length p) in
@@ -51,6 +53,19 @@ Proof. exact cseq_value_spec. Qed.
 Example C10_cseq_example :
   parse_cseq [51;49;52;49;53;57;32;73;78;86;73;84;69;13;10;88] 0 cseq0
   = Done 15 EOk (mkcseq 314159 (get_method_no [73;78;86;73;84;69]) (mkpf 0 6) (mkpf 7 6) (mkpf 0 13) CsFIN 0).
+Proof. vm_compute. reflexivity. Qed.
+Theorem C10_uri_port_is_its_digits : forall h0 (host ds : list byte), hostb h0 = true -> Forall (fun c => hostb c = true) host -> all_digits ds ->
+  let hostt := h0 :: host in
+  let raw := [115; 105; 112; 58] ++ hostt ++ 58 :: ds in
+  let lh := nnat (length hostt) in
+  parse_uri raw puri0 =
+    if dec ds <=? 65535
+    then Some (NoURIErr, nnat (length raw), mkpuri SIPuri (mkpf 0 4) pf0 pf0 (mkpf 4 lh) (mkpf (4 + lh + 1) (nnat (length ds))) pf0 pf0 (dec ds))
+    else Some (ErrURIPort, nnat (length raw), mkpuri SIPuri (mkpf 0 4) (mkpf 4 lh) pf0 pf0 (mkpf (4 + lh + 1) (nnat (length ds))) pf0 pf0 0).
+Proof. exact uri_port_spec. Qed.
+(* "sip:h:5060" *)
+Example C10_uri_port_example : parse_uri [115;105;112;58;104;58;53;48;54;48] puri0
+  = Some (NoURIErr, 10, mkpuri SIPuri (mkpf 0 4) pf0 pf0 (mkpf 4 1) (mkpf 6 4) pf0 pf0 5060).
 Proof. vm_compute. reflexivity. Qed.
 Theorem C10_uint32_accumulation_exact_or_rejected : forall ds v, all_digits ds -> v <= MaxU32 ->
   acc32_all v ds = if dec_from v ds <=? MaxU32 then Some (dec_from v ds) else None.
